@@ -77,7 +77,7 @@ type c20CASpec struct {
 	features           *lnwire.RawFeatureVector
 	extra              []byte
 	post               func(*lnwire.ChannelAnnouncement1) // applied after signing
-	swapN, swapB, rotS bool                              // post-sign signature shuffles
+	swapN, swapB, rotS bool                               // post-sign signature shuffles
 }
 
 func c20HonestCA(scid lnwire.ShortChannelID) c20CASpec {
@@ -149,14 +149,22 @@ func (s c20CUSpec) build(id string) *c20Msg {
 	u := &lnwire.ChannelUpdate1{
 		ChainHash: s.chain, ShortChannelID: s.scid, Timestamp: s.ts, MessageFlags: s.mflags,
 		ChannelFlags: s.cflags, TimeLockDelta: s.tld, HtlcMinimumMsat: s.min, HtlcMaximumMsat: s.max,
-		BaseFee: s.base, FeeRate: s.rate, ExtraOpaqueData: s.extra,
+		BaseFee: s.base, FeeRate: s.rate,
 	}
-	w := c20Encode(u)
+	// The extra opaque data is the tail of the message. It is appended to the wire
+	// bytes by hand: lnwire's ChannelUpdate1.Encode re-packs the extra data from the
+	// records it knows (inbound fee) and would drop everything else.
+	extra := s.extra
+	w := append(c20Encode(u), extra...)
 	u.Signature = c20SignOver(s.signer, w, c20CUOff)
 	if s.post != nil {
+		u.ExtraOpaqueData = nil
 		s.post(u)
+		if u.ExtraOpaqueData != nil {
+			extra, u.ExtraOpaqueData = u.ExtraOpaqueData, nil
+		}
 	}
-	return c20FromWire(id, c20Encode(u))
+	return c20FromWire(id, append(c20Encode(u), extra...))
 }
 
 // ---------------------------------------------------------------------------
@@ -466,6 +474,14 @@ func c20BuildCatalogue() *c20Catalogue {
 		s.max, s.min = lnwire.MilliSatoshi(c20TinyCapacity*1000), 1
 		sem(&c.SemCU, s.build("xCU.tiny-channel,max=capacity"))
 	}
+
+	// lnd knows one record of the extra data (inbound fee, type 55555): alone, and
+	// followed by a record it does not know -- all signed; the message must be
+	// stored and relayed exactly as received
+	inFee := []byte{0xfd, 0xd9, 0x03, 0x08, 0xff, 0xff, 0xff, 0x9c, 0x00, 0x00, 0x00, 0x07} // base -100, rate 7
+	sem(&c.SemCU, cu(func(s *c20CUSpec) { s.extra = inFee; s.base = 7801 }).build("xCU.extra=inbound-fee,signed"))
+	sem(&c.SemCU, cu(func(s *c20CUSpec) { s.extra = append(append([]byte{}, inFee...), c20ExtraTLV...); s.base = 7802 }).build("xCU.extra=inbound-fee+tlv,signed"))
+	sem(&c.SemCU, cu1(func(s *c20CUSpec) { s.extra = c20ExtraTLV; s.base = 8803 }).build("xCU1.extra=tlv,signed"))
 
 	// extra opaque data around the graph store's documented limit of 10 000 bytes
 	// (the KV store keeps htlc_maximum_msat in the same blob): one well-formed odd
